@@ -17,7 +17,8 @@ func init() {
 			"R3.1 place or account: in the assigner's loop over the discovered map every iteration either places the target, or adds its space to the needed-space value, or leaves through one of the enumerated skip edges (already scraped by a reporting shard, no status, not healthy, too big); no return precedes the loop and the accumulated value is what is returned; " +
 			"R3.2 needed space decides the direction: the assigner's result is added (both dimensions) to the value whose zero test selects between scale-up (only when non-zero, given that very value) and the idle scan; " +
 			"R3.3 pending transfers complete: the delete that finishes a hand-over carries no condition beyond the documented ones (discovered, both counts reached, distinct non-nil in-sync holder, own in-transfer, other normal), so a transfer cannot stay pending once both sides have scraped enough. " +
-			"Not decided: the arithmetic of the scale-up amount, boundedness of the number of cycles, idempotence at the fixed point.",
+			"R3.4 the scale-up function adds at least one shard to the in-sync count (so that, with all shards in sync, an unplaceable eligible target makes the request exceed the current count). " +
+			"Not decided: the exact scale-up amount, boundedness of the number of cycles, idempotence at the fixed point.",
 		Assumptions: []string{"go/types and go/ssa are correct", "field-based may-alias memory model"}})
 }
 
@@ -31,6 +32,7 @@ func runC03(p *engine.Prog, r *engine.Report) {
 	r.Min("R3.1-place-or-account", 2)
 	r.Min("R3.2-direction", 1)
 	r.Min("R3.3-handover-exact", 1)
+	r.Min("R3.4-scale-up-amount", 1)
 
 	var assigner *ssa.Function
 	for _, mw := range c.mapWrites {
@@ -246,6 +248,53 @@ func runC03(p *engine.Prog, r *engine.Report) {
 		r.Check(len(probs) == 0, "R3.2-direction", ck, "needed space in "+engine.FuncName(fn), "assigner result added to the needed-space value; scale-up called with it exactly under 'non-zero'", strings.Join(probs, "; "))
 	}
 
+	// ---- R3.4 the scale-up amount is at least one shard whenever the scale-up function is called
+	for _, fn := range c.funcs {
+		if len(callsIn(fn, c.mChangeScale)) == 0 {
+			continue
+		}
+		for _, in := range allInstrs(fn) {
+			call, ok := in.(*ssa.Call)
+			if !ok || call.Call.StaticCallee() == nil || !engine.InPkg(call.Call.StaticCallee(), pkgCoord) {
+				continue
+			}
+			up := call.Call.StaticCallee()
+			takesSpace := false
+			for _, q := range up.Params {
+				if n, ok := q.Type().(*types.Named); ok && n.Obj() == spaceT.Obj() {
+					takesSpace = true
+				}
+			}
+			if !takesSpace || up.Signature.Results().Len() != 1 || !isIntBasic(up.Signature.Results().At(0).Type()) || len(up.Params) < 2 || !isSliceOfPtrTo(up.Params[1].Type(), c.shardInfo) {
+				continue
+			}
+			ufi := p.Info(up)
+			// result = len(in-sync) + amount (then floored by len(all)): find the addition whose one operand is len(filter(...))
+			var probs []string
+			found := false
+			for _, in2 := range allInstrs(up) {
+				bo, ok := in2.(*ssa.BinOp)
+				if !ok || bo.Op != token.ADD || !isIntBasic(bo.Type()) {
+					continue
+				}
+				for k, opnd := range []ssa.Value{bo.X, bo.Y} {
+					if !strings.HasPrefix(ufi.T(opnd).S, "len(call ") {
+						continue
+					}
+					found = true
+					amount := []ssa.Value{bo.Y, bo.X}[k]
+					if !atLeastOne(ufi, amount, map[ssa.Value]bool{}) {
+						probs = append(probs, "the number of shards added ("+short(ufi.T(amount).S)+") is not bounded below by 1 (an unplaceable target could leave the requested count unchanged)")
+					}
+				}
+			}
+			if !found {
+				probs = append(probs, "the result is not 'in-sync shards + amount'")
+			}
+			r.Check(len(probs) == 0, "R3.4-scale-up-amount", "amount in "+engine.FuncName(up), engine.FuncName(up)+" ("+p.Rel(up.Pos())+")", "requested = in-sync count + amount with amount ≥ 1 (quotients of non-negative needed space assumed ≥ 0)", strings.Join(probs, "; "))
+		}
+	}
+
 	// ---- R3.3 the hand-over delete is not over-constrained
 	nH := 0
 	for _, del := range c.mapDeletes {
@@ -352,3 +401,37 @@ func (c *coord) isAddMethod(fn *ssa.Function) bool {
 }
 
 func controlsC03(p *engine.Prog) []Control { return nil }
+
+// atLeastOne: v is (q + 1) for a quotient q, a conversion of such, or a phi of such values.
+func atLeastOne(fi *engine.FuncInfo, v ssa.Value, seen map[ssa.Value]bool) bool {
+	if seen[v] {
+		return true
+	}
+	seen[v] = true
+	switch x := v.(type) {
+	case *ssa.Convert:
+		return atLeastOne(fi, x.X, seen)
+	case *ssa.Phi:
+		for _, e := range x.Edges {
+			if !atLeastOne(fi, e, seen) {
+				return false
+			}
+		}
+		return true
+	case *ssa.BinOp:
+		if x.Op == token.ADD {
+			for k, o := range []ssa.Value{x.X, x.Y} {
+				if t := fi.T(o); t.IsConst() && t.K >= 1 {
+					other := []ssa.Value{x.Y, x.X}[k]
+					if q, ok := other.(*ssa.BinOp); ok && q.Op == token.QUO {
+						return true
+					}
+				}
+			}
+		}
+	case *ssa.Const:
+		t := fi.T(x)
+		return t.IsConst() && t.K >= 1
+	}
+	return false
+}
